@@ -42,6 +42,10 @@ static const char POST[]="\r\n--b--\r\nee";
 static const char PRE[]="";
 static const char POST[]="\r\n--b\r\nh\r\n\r\nv\r\n--b--\r\n";
 #define NBOUND 2
+#elif SHAPE==6  /* the data is "x CR" . D: with D = LF the data ends in a CRLF of its own in front of the delimiter's CRLF */
+static const char PRE[]="--b\r\nh\r\n\r\nx\r";
+static const char POST[]="\r\n--b--\r\n";
+#define NBOUND 2
 #elif SHAPE==5  /* D is a header line (no CR / LF inside: a header line is one line) */
 static const char PRE[]="--b\r\n";
 static const char POST[]="\r\n\r\nv\r\n--b--\r\n";
@@ -104,6 +108,8 @@ static void expected(void){
     ex_lit("pp",0); ex_b(); ex_lit("h\r\n",1); ex_lit("\r\n",1); ex_d(); ex_b(); ex_lit("ee",0);
 #elif SHAPE==4
     ex_d(); ex_b(); ex_lit("h\r\n",1); ex_lit("\r\n",1); ex_lit("v",0); ex_b();
+#elif SHAPE==6
+    ex_b(); ex_lit("h\r\n",1); ex_lit("\r\n",1); ex_lit("x\r",0); ex_d(); ex_b();
 #elif SHAPE==5
     ex_b(); ex_d(); ex_lit("\r\n",1); ex_lit("\r\n",1); ex_lit("v",0); ex_b();
 #endif
@@ -130,7 +136,7 @@ void harness(void){
     /* the encoder never puts the delimiter into the data. The parser also accepts a bare LF in front of the dashes, and the first
      * delimiter directly at the start of the stream, so those look-alikes are excluded as well (weaker reading, DESIGN.md C14):
      * E = LF . D . POST must contain LF "--b" nowhere before the intended delimiter in POST */
-    {   unsigned char E[1+ND+NPOST]; size_t m=0; E[m++]=LF; for(size_t i=0;i<ND;i++) E[m++]=d[i]; for(size_t i=0;i<NPOST;i++) E[m++]=(unsigned char)POST[i];
+    {   unsigned char E[1+ND+NPOST]; size_t m=0; E[m++]=(NPRE>0)?(unsigned char)PRE[NPRE>0?NPRE-1:0]:LF;   /* the byte in front of D (the start of the stream counts as a line start) */ for(size_t i=0;i<ND;i++) E[m++]=d[i]; for(size_t i=0;i<NPOST;i++) E[m++]=(unsigned char)POST[i];
         size_t intended = 1+ND+((POST[0]==CR)?1:0);
         for(size_t i=0;i<intended;i++) if(i+3<m) __CPROVER_assume(!(E[i]==LF && E[i+1]=='-' && E[i+2]=='-' && E[i+3]=='b')); }
 #if SHAPE==2
